@@ -106,6 +106,7 @@ def run(repo, rep, tier):
     lis = repo.cls(LS, 'WBEMListener')
     hnd = repo.cls(LS, 'ListenerRequestHandler')
     per_instance_sync_state(repo, rep)
+    failed_start_is_undone(repo, rep)
     delivery_before_accepting(repo, rep)
 
     def m(name):
@@ -718,3 +719,84 @@ def delivery_before_accepting(repo, rep):
                         '/ the callback thread has not been started: a '
                         'request handled in that window is acknowledged '
                         'with a success response and silently dropped')
+
+
+def failed_start_is_undone(repo, rep):
+    """C16.R9: start() acquires its resources one after the other - queue,
+    callback thread, HTTP server and thread, HTTPS server and thread - and
+    any of the later steps can fail (port in use, bad certificate).  What
+    the earlier steps set up must then be taken down again: an HTTP server
+    thread that keeps serving after start() raised belongs to a listener
+    whose queue is gone; it acknowledges indications with a success
+    response and drops them (_handle_indication returns when there is no
+    queue), and its port stays bound.  So the cleanup handler around the
+    acquisition steps resets (with the stop helpers inlined) every field of
+    the listener that start() sets to something other than None."""
+    from ..inline import Flat
+    r9 = rep.rule('C16.R9', 'a start() that fails takes down everything it '
+                  'had started')
+    lis = repo.cls(LS, 'WBEMListener')
+    start = lis.methods.get('start')
+    if start is None:
+        raise AnalysisError('WBEMListener.start vanished')
+    r9.functions.add(start.fq)
+    sets = {}
+    for a in walk_no_nested(start.node):
+        if isinstance(a, ast.Assign):
+            for t in a.targets:
+                if isinstance(t, ast.Attribute) and \
+                        isinstance(t.value, ast.Name) and \
+                        t.value.id == 'self' and not (
+                            isinstance(a.value, ast.Constant) and
+                            a.value.value is None):
+                    sets.setdefault(t.attr, a)
+    if len(sets) < 4:
+        raise AnalysisError('C16.R9: start() sets only %d fields' % len(sets))
+    flat = Flat(start)
+    cleanup = []
+    for st in flat.body:
+        if isinstance(st, ast.Try):
+            for h in st.handlers:
+                names = []
+                if h.type is None:
+                    names = ['BaseException']
+                else:
+                    ts = h.type.elts if isinstance(h.type, ast.Tuple) \
+                        else [h.type]
+                    names = [(dotted(t) or '').split('.')[-1] for t in ts]
+                if set(names) & {'Exception', 'BaseException'} and any(
+                        isinstance(x, ast.Raise) and x.exc is None
+                        for x in h.body):
+                    cleanup.append(h)
+    r9.sites += 1
+    if not cleanup:
+        r9.ob(False, 'cleanup-handler')
+        rep.finding(r9, start.qualname, 'try: ... except Exception: ... raise',
+                    'no-cleanup', LS, start.node.lineno,
+                    'start() has no handler that takes down what it had '
+                    'already started when a later step fails')
+        return
+    resets = set()
+    for h in cleanup:
+        for a in ast.walk(h):
+            if isinstance(a, ast.Assign) and \
+                    isinstance(a.value, ast.Constant) and \
+                    a.value.value is None:
+                for t in a.targets:
+                    if isinstance(t, ast.Attribute) and \
+                            isinstance(t.value, ast.Name) and \
+                            t.value.id == 'self':
+                        resets.add(t.attr)
+    for fld, a in sorted(sets.items()):
+        r9.sites += 1
+        ok = fld in resets
+        r9.ob(ok, 'start:undo:' + fld, {'field': fld})
+        if not ok:
+            rep.finding(r9, start.qualname, 'self.%s' % fld,
+                        'not-undone-on-failure', LS, a.lineno,
+                        'start() sets self.%s, and the handler that cleans '
+                        'up after a failed later step does not take it down '
+                        '(no `self.%s = None` on the cleanup path, helpers '
+                        'inlined): after start() raised, that part of the '
+                        'listener keeps running without the rest' %
+                        (fld, fld))
